@@ -18,7 +18,8 @@ use crate::runner::*;
 pub const F: usize = 0;
 pub const Q: usize = 1;
 pub const I: usize = 2;
-const NAMES: [&str; 3] = ["F", "Q", "I"];
+pub const E: usize = 3;
+const NAMES: [&str; 4] = ["F", "Q", "I", "E"];
 
 fn classify(label: &str) -> Option<usize> {
     if label.starts_with("wal_flush:") || label.starts_with("flush_table:") || label.starts_with("compact:") || label.starts_with("persist_partitions:") {
@@ -37,11 +38,11 @@ struct CtlState {
     enabled: bool,
     /// actor -> gate label it is parked at
     parked: BTreeMap<usize, String>,
-    permits: [u64; 3],
-    done: [bool; 3],
-    started: [bool; 3],
+    permits: [u64; 4],
+    done: [bool; 4],
+    started: [bool; 4],
     /// controlled actors (others pass through gates)
-    controlled: [bool; 3],
+    controlled: [bool; 4],
     trace: Vec<String>,
 }
 
@@ -111,7 +112,7 @@ pub fn install_gate_controller() {
     })));
 }
 
-fn ctl_reset(controlled: [bool; 3]) {
+fn ctl_reset(controlled: [bool; 4]) {
     let mut st = CTL.st.lock().unwrap();
     *st = CtlState::default();
     st.enabled = true;
@@ -188,6 +189,9 @@ pub struct Scenario {
     /// leave out actor Q (restart scenarios only need flush x ingestion)
     #[serde(default)]
     pub no_query: bool,
+    /// actor E: evict_cache() as one atomic step that can be placed at any decision point
+    #[serde(default)]
+    pub with_evict: bool,
 }
 
 #[derive(Clone, Debug, Serialize, Deserialize)]
@@ -238,7 +242,7 @@ pub fn run_schedule(sc: &Scenario, schedule: &[usize]) -> RunObs {
     let dir = fresh_dir();
     let opts = db_options(sc.factor, &dir);
     let rt = tokio::runtime::Builder::new_current_thread().enable_all().build().unwrap();
-    ctl_reset([false, false, false]); // setup runs uncontrolled
+    ctl_reset([false, false, false, false]); // setup runs uncontrolled
     let mut db = Arc::new(LocustDB::new(&opts));
     let mut obs = RunObs { points: vec![], trace: vec![], violation: None, outcome: String::new() };
     let mut acked = RefDb::default();
@@ -260,18 +264,21 @@ pub fn run_schedule(sc: &Scenario, schedule: &[usize]) -> RunObs {
     }
 
     // ---- the race
-    ctl_reset([true, !sc.no_query, sc.with_ingest]);
+    ctl_reset([true, !sc.no_query, sc.with_ingest, false]);
     let q_result: Arc<Mutex<Option<Result<QOut, (String, String)>>>> = Arc::new(Mutex::new(None));
     let i_started = Arc::new(AtomicBool::new(false));
     let i_done_before_q_start = Arc::new(AtomicBool::new(false));
     let q_started = Arc::new(AtomicBool::new(false));
-    let mut handles: Vec<Option<std::thread::JoinHandle<()>>> = vec![None, None, None];
-    let actors: Vec<usize> = match (sc.no_query, sc.with_ingest) {
+    let mut handles: Vec<Option<std::thread::JoinHandle<()>>> = vec![None, None, None, None];
+    let mut actors: Vec<usize> = match (sc.no_query, sc.with_ingest) {
         (false, true) => vec![F, Q, I],
         (false, false) => vec![F, Q],
         (true, true) => vec![F, I],
         (true, false) => vec![F],
     };
+    if sc.with_evict {
+        actors.push(E);
+    }
     let start_actor = |a: usize, handles: &mut Vec<Option<std::thread::JoinHandle<()>>>| {
         {
             let mut st = CTL.st.lock().unwrap();
@@ -309,6 +316,10 @@ pub fn run_schedule(sc: &Scenario, schedule: &[usize]) -> RunObs {
                     mark_done(Q);
                 })
             }
+            E => std::thread::spawn(move || {
+                let _ = std::panic::catch_unwind(std::panic::AssertUnwindSafe(|| db.evict_cache()));
+                mark_done(E);
+            }),
             _ => {
                 let is = i_started.clone();
                 std::thread::spawn(move || {
@@ -328,7 +339,7 @@ pub fn run_schedule(sc: &Scenario, schedule: &[usize]) -> RunObs {
     let mut current: Option<usize> = None;
     let mut background: BTreeSet<usize> = BTreeSet::new(); // running without having arrived (blocked or slow)
     let mut k = 0usize;
-    let mut last_gate: [String; 3] = [String::new(), String::new(), String::new()];
+    let mut last_gate: [String; 4] = [String::new(), String::new(), String::new(), String::new()];
     loop {
         // enabled = not done, and (not started, or parked)
         let (enabled, all_done) = {
@@ -475,7 +486,7 @@ pub fn run_schedule(sc: &Scenario, schedule: &[usize]) -> RunObs {
     }
     if obs.violation.is_none() && sc.restart_check {
         // clean restart without any further flush: acknowledged data must survive exactly once
-        ctl_reset([false, false, false]);
+        ctl_reset([false, false, false, false]);
         let db2 = LocustDB::new(&opts);
         let fin = rt.block_on(db2.run_query("SELECT id FROM t", false, true, vec![]));
         let want: Vec<i64> = if sc.with_ingest { vec![1, 2, 3, 11, 12, 13, 21, 22] } else { vec![1, 2, 3, 11, 12, 13] };
@@ -530,9 +541,16 @@ pub fn scenarios(tier: Tier) -> Vec<Scenario> {
                 if tier == Tier::Quick && factor == 4 && (with_ingest || cold) {
                     continue;
                 }
-                v.push(Scenario { query: q.to_string(), cold, with_ingest, factor, restart_check: false, no_query: false });
+                v.push(Scenario { query: q.to_string(), cold, with_ingest, factor, restart_check: false, no_query: false, with_evict: false });
             }
         }
+    }
+    // eviction as a fourth kind of step: while a flush with compaction and a query on (partly) cold columns run
+    for (q, cold) in [("SELECT id, x, s FROM t", true), ("SELECT id, x FROM t", false)] {
+        if tier == Tier::Quick && !cold {
+            continue;
+        }
+        v.push(Scenario { query: q.to_string(), cold, with_ingest: false, factor: 0, restart_check: false, no_query: false, with_evict: true });
     }
     v
 }
@@ -550,7 +568,13 @@ fn switches(points: &[(Vec<usize>, usize)]) -> usize {
 }
 
 /// Depth-first enumeration with replay of all schedules with at most `bound` context switches.
-pub fn explore(sc: &Scenario, bound: usize, max_runs: usize, mut visit: impl FnMut(&[usize], &RunObs)) -> (usize, bool) {
+pub fn explore(sc: &Scenario, bound: usize, max_runs: usize, visit: impl FnMut(&[usize], &RunObs)) -> (usize, bool) {
+    explore_part(sc, bound, max_runs, 0, 1, visit)
+}
+
+/// Part `part` of `parts` of the exploration: the schedules are split by the position of their
+/// first deviation from the default schedule (the default schedule itself belongs to part 0).
+pub fn explore_part(sc: &Scenario, bound: usize, max_runs: usize, part: usize, parts: usize, mut visit: impl FnMut(&[usize], &RunObs)) -> (usize, bool) {
     let mut stack: Vec<Vec<usize>> = vec![vec![]];
     let mut runs = 0;
     let mut capped = false;
@@ -560,13 +584,19 @@ pub fn explore(sc: &Scenario, bound: usize, max_runs: usize, mut visit: impl FnM
             break;
         }
         let obs = run_schedule(sc, &prefix);
-        runs += 1;
+        let root = prefix.is_empty();
         let choices: Vec<usize> = obs.points.iter().map(|p| p.1).collect();
-        visit(&choices, &obs);
+        if !root || part == 0 {
+            runs += 1;
+            visit(&choices, &obs);
+        }
         if obs.violation.is_some() {
             continue; // cut the path at its first violation
         }
         for i in prefix.len()..obs.points.len() {
+            if root && i % parts != part {
+                continue;
+            }
             for alt in &obs.points[i].0 {
                 if *alt == obs.points[i].1 {
                     continue;
@@ -595,7 +625,7 @@ impl Engine for C10 {
         let bound = if tier == Tier::Quick { 2 } else { 3 };
         Describe {
             level: "model_checking",
-            rule: format!("scenario: table t with one flushed batch and one batch in the open buffer (+ a second table), then concurrently actor F = force_flush (partition_combine_factor 0: every flush also compacts; 4: no compaction), actor Q = one query from {{SELECT id, SELECT x (a column the new partition lacks), SELECT id, y, SELECT *, COUNT(1), a query on evicted / reopened columns}} and optionally actor I = ingestion of a third batch. The three actors are real database threads parked at the sync points compiled into wal_flush (begin, frozen, per table batched / sub-partitioned, batched, partition files written, partitions persisted, compaction begin / before swap / after swap / catalogue updated, compacted, catalogue persisted, orphans deleted, end), run_query (snapshot taken, before each partition, before each disk read) and ingest_efficient (begin, end). EVERY schedule 'run actor X to its next sync point' with at most {} context switches is executed (depth-first with replay). Oracle: the query returns Ok; its rows equal the content of a prefix of the acknowledged batch log (every batch whole, all batches acknowledged before the query started included); no database thread panics; all actors complete; afterwards SELECT id returns every acknowledged row once. Non-trivial: schedules with at least one switch; distinct by the sequence of sync points observed.", bound),
+            rule: format!("scenario: table t with one flushed batch and one batch in the open buffer (+ a second table), then concurrently actor F = force_flush (partition_combine_factor 0: every flush also compacts; 4: no compaction), actor Q = one query from {{SELECT id, SELECT x (a column the new partition lacks), SELECT id, y, SELECT *, COUNT(1), a query on evicted / reopened columns}} and optionally actor I = ingestion of a third batch. The three actors are real database threads parked at the sync points compiled into wal_flush (begin, frozen, per table batched / sub-partitioned, batched, partition files written, partitions persisted, compaction begin / before swap / after swap / catalogue updated, compacted, catalogue persisted, orphans deleted, end), run_query (snapshot taken, before each partition, before each disk read) and ingest_efficient (begin, end). EVERY schedule 'run actor X to its next sync point' with at most {} context switches (one less in the scenarios with three actors) is executed (depth-first with replay). Oracle: the query returns Ok; its rows equal the content of a prefix of the acknowledged batch log (every batch whole, all batches acknowledged before the query started included); no database thread panics; all actors complete; afterwards SELECT id returns every acknowledged row once. Non-trivial: schedules with at least one switch; distinct by the sequence of sync points observed.", bound),
             assumptions: vec![
                 "interleavings are explored at sync-point granularity; lock-level interleavings between two sync points are taken as they come".into(),
                 "an actor that does not reach its next sync point within the patience window is treated as blocked by a parked actor and left running; only a schedule in which the actors never complete counts as a hang".into(),
@@ -610,12 +640,16 @@ impl Engine for C10 {
         install_gate_controller();
         let bound = if tier == Tier::Quick { 2 } else { 3 };
         let max_runs = if tier == Tier::Quick { 400 } else { 1500 };
+        let parts = 4usize;
         for (si, sc) in scenarios(tier).iter().enumerate() {
-            if si % nshards != shard {
+          for part in 0..parts {
+            if (si * parts + part) % nshards != shard {
                 continue;
             }
             let mut local: Vec<(Vec<usize>, String, String, Vec<String>)> = vec![];
-            let (runs, capped) = explore(sc, bound, max_runs, |choices, obs| {
+            // three actors: one switch less (the space grows with the square of the number of sync points)
+            let bound = if sc.with_ingest { bound - 1 } else { bound };
+            let (runs, capped) = explore_part(sc, bound, max_runs, part, parts, |choices, obs| {
                 out.evaluations += 1;
                 out.transitions += obs.points.len() as u64;
                 let h = hash64(format!("{:?}|{:?}", sc, obs.trace).as_bytes());
@@ -646,6 +680,7 @@ impl Engine for C10 {
                     case: serde_json::to_value(GateCase { scenario: sc.clone(), schedule: choices, expect: sig.clone() }).unwrap(),
                 });
             }
+          }
         }
     }
 
@@ -658,8 +693,8 @@ impl Engine for C10 {
 /// clean restart. Called from the C08 engine.
 pub fn restart_scenarios() -> Vec<Scenario> {
     vec![
-        Scenario { query: "SELECT COUNT(1) FROM t".into(), cold: false, with_ingest: true, factor: 4, restart_check: true, no_query: true },
-        Scenario { query: "SELECT COUNT(1) FROM t".into(), cold: false, with_ingest: true, factor: 0, restart_check: true, no_query: true },
+        Scenario { query: "SELECT COUNT(1) FROM t".into(), cold: false, with_ingest: true, factor: 4, restart_check: true, no_query: true, with_evict: false },
+        Scenario { query: "SELECT COUNT(1) FROM t".into(), cold: false, with_ingest: true, factor: 0, restart_check: true, no_query: true, with_evict: false },
     ]
 }
 
